@@ -2,6 +2,7 @@
 # tools/mutant.sh <patch.diff> <ID> [<ID>...]   apply a property-breaking change to /repo, run its tests and the given
 # checks (quick tier unless TIER=thorough), and always revert. Prints one line per check: CAUGHT / MISSED.
 export GOFLAGS=-mod=mod GOPROXY=off GOSUMDB=off GOTOOLCHAIN=local
+export VERIF_EVIDENCE_DIR=/verif/.build/evidence-of-broken-trees
 P=$(realpath "$1"); shift
 exec 9>/verif/.build/repo.lock; flock 9   # /repo is shared with tools/mutsweep.sh
 if ! git -C /repo diff --quiet; then echo "/repo is dirty"; exit 2; fi
